@@ -16,8 +16,11 @@
 package gomatrixserverlib
 
 import (
+	"encoding/json"
 	"fmt"
+	"reflect"
 	"strings"
+	"sync"
 	"unicode/utf8"
 
 	"github.com/matrix-org/gomatrixserverlib/spec"
@@ -53,6 +56,56 @@ type eventFields struct {
 }
 
 var emptyEventReferenceList = []eventReference{}
+
+// jsonFieldNames lists the JSON member names a struct type decodes
+// (embedded structs included).
+func jsonFieldNames(t reflect.Type, into map[string]struct{}) {
+	for i := 0; i < t.NumField(); i++ {
+		f := t.Field(i)
+		if f.Anonymous && f.Type.Kind() == reflect.Struct {
+			jsonFieldNames(f.Type, into)
+			continue
+		}
+		if name, _, _ := strings.Cut(f.Tag.Get("json"), ","); name != "" && name != "-" {
+			into[name] = struct{}{}
+		}
+	}
+}
+
+var jsonFieldNamesByType sync.Map // reflect.Type -> map[string]struct{}
+
+// unmarshalExactFields decodes the top-level members of eventJSON into the
+// struct v points to, matching member names exactly. encoding/json on its own
+// matches them case-insensitively (with Unicode folding), so that a member
+// such as "Room_id" or "\u017fender" would stand in for the field it resembles.
+func unmarshalExactFields(eventJSON []byte, v interface{}) error {
+	t := reflect.TypeOf(v)
+	for t.Kind() == reflect.Ptr {
+		t = t.Elem()
+	}
+	var names map[string]struct{}
+	if cached, ok := jsonFieldNamesByType.Load(t); ok {
+		names = cached.(map[string]struct{})
+	} else {
+		names = map[string]struct{}{}
+		jsonFieldNames(t, names)
+		jsonFieldNamesByType.Store(t, names)
+	}
+	var all map[string]json.RawMessage
+	if err := json.Unmarshal(eventJSON, &all); err != nil {
+		return err
+	}
+	for name := range all {
+		if _, ok := names[name]; !ok {
+			delete(all, name)
+		}
+	}
+	exact, err := json.Marshal(all)
+	if err != nil {
+		return err
+	}
+	return json.Unmarshal(exact, v)
+}
 
 const (
 	// The event ID, room ID, sender, event type and state key fields cannot be
